@@ -43,7 +43,10 @@ META = dict(
          "success; fresh or the very same source objects): each call is judged by the same per-call model and "
          "every earlier result object is re-compared with its snapshot after each later call. "
          "Holds on the executions produced.",
-    note="Success is a source returning normally: the empty list in the base strata, and in the return-value stratum "
+    note="Stub source objects carry a truthiness dimension in every stratum (default, __bool__ False, __len__ 0, "
+         "__eq__ always True / always False, unhashable) plus a stratum in which every source object is falsy: only "
+         "authenticate()'s outcome matters, never what the instance evaluates to. "
+         "Success is a source returning normally: the empty list in the base strata, and in the return-value stratum "
          "None, [], non-empty lists, strings, booleans, 0, (), {}, a Mock, a bare object (only an exception is a "
          "failure). A same-class stratum makes every source the same real class failing with SSHException-family "
          "errors to show that no exception class hides later sources. BaseException "
@@ -161,6 +164,80 @@ class Stub(AuthSource):
         return self.outcome
 
 
+# ---- 'source object truthiness' dimension -------------------------------------------------------------
+# A produced source is attempted whatever its instance evaluates to: a key-ring source that is currently empty may
+# define __len__ -> 0 or __bool__ -> False; others compare equal to everything / nothing, or cannot be hashed.
+class _BoolFalse:
+    def __bool__(self):
+        return False
+
+
+class _LenZero:
+    def __len__(self):
+        return 0
+
+
+class _EqAlways:
+    def __eq__(self, other):
+        return True
+
+    def __ne__(self, other):
+        return False
+
+    def __hash__(self):
+        return 7
+
+
+class _EqNever:
+    def __eq__(self, other):
+        return False
+
+    def __ne__(self, other):
+        return True
+
+    def __hash__(self):
+        return id(self) >> 4
+
+
+class _Unhashable:
+    __hash__ = None
+
+    def __eq__(self, other):
+        return self is other
+
+
+TRUTHINESS = {"default": None, "__bool__ False": _BoolFalse, "__len__ 0": _LenZero, "__eq__ always True": _EqAlways,
+              "__eq__ always False": _EqNever, "unhashable": _Unhashable}
+_VARIANT_CACHE = {}
+
+
+def variant(base, name):
+    """Subclass of `base` (Stub / QStub) with the named truthiness behaviour mixed in first."""
+    mix = TRUTHINESS[name]
+    if mix is None:
+        return base
+    key = (base, name)
+    if key not in _VARIANT_CACHE:
+        _VARIANT_CACHE[key] = type("%s_%s" % (base.__name__, mix.__name__.strip("_")), (mix, base), {})
+    return _VARIANT_CACHE[key]
+
+
+def pick_truthiness(rng, force_falsy=False):
+    if force_falsy:
+        return rng.choice(["__bool__ False", "__len__ 0"])
+    return rng.choice(["default", "default", "default", "__bool__ False", "__len__ 0", "__eq__ always True",
+                       "__eq__ always False", "unhashable"])
+
+
+def count_truthiness(ctx, names, attempted):
+    """names: truthiness of each produced source in order; attempted: how many of them must be attempted."""
+    for nm in names[:attempted]:
+        if nm != "default":
+            ctx.count("attempts_expected_of_sources_with_" + nm.replace(" ", "_").replace("__", "").lower())
+        if nm in ("__bool__ False", "__len__ 0"):
+            ctx.count("attempts_expected_of_falsy_source_objects")
+
+
 def return_values():
     """Things a source's authenticate() may return normally - every one of them is a success."""
     from unittest.mock import Mock
@@ -173,13 +250,18 @@ def return_values():
             ("()", (), "falsy non-list value"), ("{}", {}, "falsy non-list value")]
 
 
-def build_case(rng, pattern, kinds=None, classes=None, any_value=False):
+def build_case(rng, pattern, kinds=None, classes=None, any_value=False, all_falsy=False):
     """pattern: tuple of booleans (True = succeeds). -> descriptor, sources, outcomes, transport, log"""
     log = Log()
+    log.truthiness = []
     transport = FakeTransport(log)
     sources, outcomes, desc = [], [], []
     for i, ok in enumerate(pattern):
         cls = classes[i] if classes else rng.choice(["stub", "stub", "stub", "none", "password", "inmemory", "ondisk"])
+        if all_falsy:
+            cls = "stub"
+        truth = pick_truthiness(rng, all_falsy) if cls == "stub" else "default"
+        log.truthiness.append(truth)
         if ok and any_value:
             oname, outcome, _ = rng.choice(return_values())
             oname = "returns " + oname
@@ -190,7 +272,9 @@ def build_case(rng, pattern, kinds=None, classes=None, any_value=False):
             outcome = make_exc(rng, oname)
         user = "user%d" % i
         if cls == "stub":
-            src = Stub(i, outcome, log)
+            src = variant(Stub, truth)(i, outcome, log)
+            if truth != "default":
+                cls = "stub[%s]" % truth
         else:
             transport.script[user] = (i, outcome)
             if cls == "none":
@@ -261,6 +345,7 @@ def judge(ctx, desc, how, sources, outcomes, transport, log, strategy=None, wit=
             ctx.violation("exception from AuthStrategy.authenticate: " + exc_signature(e), repr(e)[:200], wit)
         return
     ctx.count("authenticate_calls_judged")
+    count_truthiness(ctx, getattr(log, "truthiness", []), len(expect_calls))
     called = [i for i, t in log.calls]
     ctx.count("source_attempts_observed", len(called))
     if called != expect_calls:
@@ -377,7 +462,7 @@ def history_case(ctx, rng, hi):
             log = Log()
             transport = FakeTransport(log)
             if stubs is None:
-                stubs = [Stub(i, None, log) for i in range(n)]
+                stubs = [variant(Stub, pick_truthiness(rng))(i, None, log) for i in range(n)]
             desc, outcomes = [], []
             for i, ok in enumerate(pattern):
                 oname = "ok" if ok else rng.choice(EXC_KINDS)
@@ -460,12 +545,19 @@ def sequence_case(ctx, rng, si):
     p_ok = rng.choice([0.0, 0.0, 0.15, 0.35])
     attempts = []  # per position: (source object, outcome object, outcome name)
     objs = {}
+    truths = []
     for pos in range(n):
         lab = "s%d" % rng.randrange(pool_size)
         if eq:
             src = QStub(lab, events, eq_by_label=True)  # a distinct object that == the earlier one
+            truths.append("default")
         else:
-            src = objs.setdefault(lab, QStub(lab, events))
+            if lab not in objs:
+                tname = pick_truthiness(rng)
+                objs[lab] = variant(QStub, tname)(lab, events)
+                objs[lab].truth = tname
+            src = objs[lab]
+            truths.append(src.truth)
         oname = "ok" if rng.random() < p_ok else rng.choice(EXC_KINDS)
         outcome = [] if oname == "ok" else make_exc(rng, oname)
         attempts.append((src, outcome, oname))
@@ -486,7 +578,7 @@ def sequence_case(ctx, rng, si):
                 if style == "adaptive" and pos > 0:
                     # decide from what happened to the previous source: it must already have been tried
                     prev = attempts[pos - 1][0]
-                    if not any(e == ("try", prev) or (e[0] == "try" and e[1] is prev) for e in events):
+                    if not any(e[0] == "try" and e[1] is prev for e in events):
                         events.append(("adaptive-generator-saw-untried-predecessor", pos))
                 events.append(("produce", src))
                 yield src
@@ -494,7 +586,7 @@ def sequence_case(ctx, rng, si):
                     events.append(("resumed-after-winner", pos))
                     raise GeneratorFault("get_sources() resumed after the winning source")
 
-    desc = dict(sequence=[(a[0].label, a[2]) for a in attempts], repeat_mode=repeat_mode, generator=style)
+    desc = dict(sequence=[(a[0].label, a[2], t) for a, t in zip(attempts, truths)], repeat_mode=repeat_mode, generator=style)
     ctx.case(("sequence", repr(desc)), sample=dict(kind="repeated sources / lazy generator", **desc) if si < 1 else None)
     strategy = S(ssh_config=paramiko.SSHConfig())
     transport = object()
@@ -515,6 +607,7 @@ def sequence_case(ctx, rng, si):
             ctx.violation("exception from AuthStrategy.authenticate: " + exc_signature(e), repr(e)[:200], desc)
         return
     ctx.count("sequence_cases_judged")
+    count_truthiness(ctx, truths, tried)
     if style == "adaptive":
         ctx.count("adaptive_generator_cases")
     if style == "fault-after-winner":
@@ -630,6 +723,19 @@ def class_case(ctx, rng, ci):
           tag="sources of one class failing with SSH exception classes: ")
 
 
+def falsy_case(ctx, rng, fi):
+    """Every produced source is a falsy object (__bool__ False / __len__ 0): all of them are attempted and reported."""
+    n = rng.randint(1, 6)
+    p_ok = rng.choice([0.0, 0.0, 0.3])
+    pattern = tuple(rng.random() < p_ok for _ in range(n))
+    how = rng.choice(["generator", "list", "iterator"])
+    desc, sources, outcomes, transport, log = build_case(rng, pattern, all_falsy=True)
+    ctx.case(("falsy", pattern, how, tuple(desc)),
+             sample=dict(kind="all source objects are falsy", sources=desc, get_sources=how) if fi < 1 and SKIP[0] <= 3 else None)
+    ctx.count("all_falsy_source_lists_judged")
+    judge(ctx, desc, how, sources, outcomes, transport, log, tag="every source object is falsy: ")
+
+
 def run(ctx):
     SKIP[0] = (ctx.shard * 3) % 5
     rng = ctx.rng
@@ -660,10 +766,19 @@ def run(ctx):
         value_case(ctx, rng, vi)
     for ci in range(ctx.pick(3000, 20000)):
         class_case(ctx, rng, ci)
+    for fi in range(ctx.pick(2000, 12000)):
+        falsy_case(ctx, rng, fi)
     for hi in range(ctx.pick(3000, 20000)):
         history_case(ctx, rng, hi)
     for si in range(ctx.pick(5000, 30000)):
         sequence_case(ctx, rng, si)
+    ctx.require("all_falsy_source_lists_judged", 3000)
+    ctx.require("attempts_expected_of_falsy_source_objects", 15000)
+    ctx.require("attempts_expected_of_sources_with_bool_false", 6000)
+    ctx.require("attempts_expected_of_sources_with_len_0", 6000)
+    ctx.require("attempts_expected_of_sources_with_eq_always_true", 3000)
+    ctx.require("attempts_expected_of_sources_with_eq_always_false", 3000)
+    ctx.require("attempts_expected_of_sources_with_unhashable", 3000)
     ctx.require("arbitrary_return_value_cases", 4000)
     ctx.require("winning_sources_returning_falsy_non_list_value", 1200)
     ctx.require("winning_sources_returning_non_empty_list", 400)
